@@ -247,6 +247,40 @@ def w_clusters(arg):
                     ok = all(cl.g(c, g) in cs for cs in vc for cl in cs for g in c.G)
                     acc.check(ok, 'vacancy-cluster-sets-closed-under-symmetry', tag, sig=(tag, 'vac'))
                     acc.check(all(cl.vacancy().ci[0] == chem for cs in vc for cl in cs), 'vacancy-clusters-live-on-the-requested-sublattice', tag)
+                    # transition-state clusters built on vacancy clusters: both flags set
+                    jumps = {(i, j, tuple(np.round(dx, 6) + 0.)) for jl in jn for (i, j), dx in jl}
+                    def is_jump(s0, s1):
+                        if s0.ci[0] != chem or s1.ci[0] != chem: return False
+                        dx = c.pos2cart(s1.R, s1.ci) - c.pos2cart(s0.R, s0.ci)
+                        return (s0.ci[1], s1.ci[1], tuple(np.round(dx, 6) + 0.)) in jumps
+                    acc.check(all(is_jump(*cl.transitionstate()) for cs in ts for cl in cs), 'TS-cluster-transition-is-a-jump-of-the-network', tag, sig=(tag, 'tsjump'))
+                    tsv = cluster.makeTSclusters(c, chem, jn, vc)
+                    okj = okg = okr = okid = oksp = True
+                    for cs in tsv:
+                        for cl in cs:
+                            s0, s1 = cl.transitionstate()
+                            if not is_jump(s0, s1): okj = False
+                            if any(cl.g(c, g) not in cs for g in c.G): okg = False
+                            rest = [x for x in cl]
+                            # the reverse transition: vacancy on the end site, moving back; a spectator entry on the end site (the
+                            # "with endpoint" variety, which names the species arriving there) becomes one on the start site
+                            if cluster.Cluster([s1, s0] + [s0 if x == s1 else x for x in rest], transition=True, vacancy=True) not in cs: okr = False
+                            # identity: a common translation and any order of the non-special sites give the same cluster ...
+                            sh = cluster.Cluster([s0 + [2, -1, 1][:c.dim], s1 + [2, -1, 1][:c.dim]] + [x + [2, -1, 1][:c.dim] for x in reversed(rest)], transition=True, vacancy=True)
+                            if not (sh == cl and hash(sh) == hash(cl) and sh.transitionstate() == (s0, s1) or sh.transitionstate() == cl.transitionstate()): okid = False
+                            if not (sh == cl and hash(sh) == hash(cl)): okid = False
+                            # ... while exchanging the final site with a spectator on the same sublattice names another transition
+                            for k, x in enumerate(rest):
+                                if x.ci[0] == chem and x != s1 and s1 not in rest:
+                                    other = cluster.Cluster([s0, x] + rest[:k] + [s1] + rest[k + 1:], transition=True, vacancy=True)
+                                    if other == cl and not (x.ci == s1.ci and np.array_equal(x.R, s1.R)): oksp = False
+                    acc.check(okj, 'vacancy-TS-cluster-transition-is-a-jump-of-the-network', tag, sig=(tag, 'tsvjump'))
+                    acc.check(okg, 'vacancy-TS-cluster-sets-closed-under-symmetry', tag, sig=(tag, 'tsvg'))
+                    acc.check(okr, 'vacancy-TS-cluster-sets-closed-under-reversal', tag, sig=(tag, 'tsvrev'))
+                    acc.check(okid, 'vacancy-TS-cluster-identity-invariant-under-translation-and-reordering-of-spectators', tag, sig=(tag, 'tsvid'))
+                    acc.check(oksp, 'vacancy-TS-cluster-identity-distinguishes-the-final-site-from-spectators', tag, sig=(tag, 'tsvsp'))
+                    flatv = [cl for cs in tsv for cl in cs]
+                    acc.check(len(flatv) == len(set(flatv)) and all(sum(cl in cs for cs in tsv) == 1 for cl in flatv[:60]), 'vacancy-TS-cluster-sets-disjoint', tag, sig=(tag, 'tsvdis'))
                 except Exception as ex:
                     acc.check(False, 'TS/vacancy-cluster-construction-no-exception', '%s: %s' % (type(ex).__name__, str(ex)[:200]))
     acc.sample = {'crystal': cid, 'maxorder': maxorder, 'checked': 'makeclusters vs brute force; orbit closure; identity; TS and vacancy clusters closed under symmetry / reversal'}
